@@ -128,7 +128,29 @@ one input:
   fields around the powers of two.
 * C17 - a result channel of 1024 entries: **-r 255 / 1025 / 4097 / 70000**.
 
-After these changes all 136 are reported. The table is generated from the last
+Sixth round: 34 more (two per property), coverage-guided: the agents ran the
+repository's suite with a coverage profile and looked for statements that no
+test executes, or executes without asserting on the result, and changed those
+(merged branches, extracted helpers with one case lost, fast paths). 30 were
+reported at once. The 4 misses and what they widened: blanks inside `;name` /
+`;author` texts collapsed (C03: a family of metadata texts with double blanks,
+tabs, punctuation, non-ASCII letters, 480 characters, bare and with blanks
+around them); `;assert` followed by a tab, or directly by a parenthesis or
+sign, taken for a plain comment (C07: the separator after the keyword varies
+in every assert case); `>` accepted as an '88 mode by the load-file reader
+(C10: a corrupted mode character is now replaced by every '94 mode, not by
+three of them); a process queue that doubles past a limit that is not 64*2^k
+(C04: process bombs filling limits of 63, 64, 65, 100, 129, 1000, 1025).
+
+Between the rounds the statement coverage of gmars reached by the quick-tier
+enumerations was measured (`tools/coverage.sh`, results in `/verif/coverage/`);
+the blocks never executed were either dead code, command-line-only entry
+points, or pointed at small additions (the `||` / `&&` lexemes in C05's
+lexicon, an EQU used by two other EQUs, `MaxCycles()` / `CoreSize()` / names and
+listings of handles in C13's query battery, a read-recording StateRecorder in
+C15).
+
+After these changes all 170 are reported. The table is generated from the last
 run of every seed against the current machinery. (Two of the agents also
 pointed out defects of the unchanged tree while reading: D20 and D21 of
 section 11.)
